@@ -27,5 +27,24 @@ for p in selftest/mutants/*${pat}*.patch; do
   fi
   rm -rf "$d"
 done
+# seeded defects written by independent sub-agents (patch.diff + meta.json under /verif/seeded/<id>/)
+for sd in seeded/*${pat}*/; do
+  [ -f "$sd/patch.diff" ] || continue
+  id=$(basename "$sd"); prop=$(python3 -c "import json,sys; print(json.load(open(sys.argv[1]))['property'])" "$sd/meta.json")
+  d=$(mktemp -d /tmp/gocv-mut-XXXXXX)
+  ./tools/scratch.sh "$d/repo" >/dev/null
+  if ! (cd "$d/repo" && patch -p1 -s < "$OLDPWD/$sd/patch.diff") >/dev/null 2>&1; then
+    echo "SELFTEST-ERROR seeded/$id: patch does not apply"; bad=$((bad+1)); rm -rf "$d"; continue
+  fi
+  out=$(./bin/gocv check "$prop" -repo "$d/repo" -out "$d/out" 2>&1)
+  if echo "$out" | grep -q "^VIOLATION property=$prop"; then
+    echo "caught   seeded/$id ($prop)"; ok=$((ok+1))
+  elif [ -f "$sd/EXPECTED-MISS" ]; then
+    echo "expected-miss seeded/$id ($prop): $(head -1 $sd/EXPECTED-MISS)"
+  else
+    echo "MISSED   seeded/$id ($prop)"; bad=$((bad+1))
+  fi
+  rm -rf "$d"
+done
 echo "selftest: $ok caught, $bad missed/errors"
 [ "$bad" -eq 0 ]
